@@ -142,15 +142,7 @@ func (c *connection) write() {
 			}
 		case msg, ok := <-c.activeMsgCompleteChan: // 平台主动下发的完成情况
 			if ok {
-				seq := msg.ExtensionFields.PlatformSeq
-				if v, ok := record[seq]; ok {
-					msg.ExtensionFields.PlatformData = v.ExtensionFields.Data
-					msg.ExtensionFields.PlatformCommand = v.Command
-					msg.ExtensionFields.ActiveSend = true
-					c.onWriteExecutionEvent(msg)
-					v.replyChan <- msg
-					delete(record, seq)
-				}
+				c.onActiveCompleteEvent(record, msg)
 			}
 		case subPackMsg, ok := <-c.reissuePackChan: // 分包补传的
 			if ok {
@@ -251,7 +243,7 @@ func (c *connection) onActiveEvent(activeMsg *ActiveMessage, record map[uint16]*
 	}
 	if err != nil {
 		replyMsg.ExtensionFields.Err = errors.Join(ErrWriteDataFail, err)
-		c.activeMsgCompleteChan <- replyMsg
+		c.onActiveCompleteEvent(record, replyMsg)
 	} else if activeMsg.OverTimeDuration >= 0 {
 		duration := 3 * time.Second
 		if activeMsg.OverTimeDuration > 0 {
@@ -268,6 +260,20 @@ func (c *connection) onActiveEvent(activeMsg *ActiveMessage, record map[uint16]*
 				fmt.Errorf("overtime is [%.2f]second", duration.Seconds()))
 			c.activeMsgCompleteChan <- overtimeMsg
 		}(replyMsg)
+	}
+}
+
+// onActiveCompleteEvent 平台主动下发的完成情况(终端应答 写失败 超时) 只在write协程里调用
+// write协程是activeMsgCompleteChan唯一的消费者 自己往里面发送的话 缓冲满了就永远阻塞
+func (c *connection) onActiveCompleteEvent(record map[uint16]*ActiveMessage, msg *Message) {
+	seq := msg.ExtensionFields.PlatformSeq
+	if v, ok := record[seq]; ok {
+		msg.ExtensionFields.PlatformData = v.ExtensionFields.Data
+		msg.ExtensionFields.PlatformCommand = v.Command
+		msg.ExtensionFields.ActiveSend = true
+		c.onWriteExecutionEvent(msg)
+		v.replyChan <- msg
+		delete(record, seq)
 	}
 }
 
@@ -328,7 +334,7 @@ func (c *connection) onActiveRespondEvent(record map[uint16]*ActiveMessage, msg 
 		for k := range record {
 			if tmp.HasRespondFunc(k) {
 				msg.ExtensionFields.PlatformSeq = k
-				c.activeMsgCompleteChan <- msg
+				c.onActiveCompleteEvent(record, msg)
 				return true
 			}
 		}
